@@ -115,6 +115,11 @@ func (o *CmdOutcome) Describe() string {
 	return "normal return"
 }
 
+// The *os.File values the process started with are kept reachable for ever: replacing
+// os.Stdin / os.Stdout / os.Stderr would otherwise leave them to the garbage collector, whose
+// finalizer closes file descriptors 0, 1 and 2 under the feet of whoever reads them next.
+var keepStdFiles = []*os.File{os.Stdin, os.Stdout, os.Stderr}
+
 // SubCmdMain is the body of TestSubCmd: the child side.
 func SubCmdMain(t *testing.T) {
 	path := os.Getenv("VERIF_SUBCMD")
